@@ -55,5 +55,21 @@ case "$what" in
     done
     "$HERE/check" --build >/dev/null
     exit $rc ;;
-  *) echo "usage: selftest.sh determinism|seeded|mutants [...]"; exit 2 ;;
+  refactors)
+    # behaviour-preserving refactorings (/verif/refactors/*.diff): every check must stay quiet
+    ids=("$@"); [ ${#ids[@]} -eq 0 ] && ids=($(ls "$HERE/refactors" | grep '\.diff$' | sed 's/\.diff$//'))
+    rc=0
+    for id in "${ids[@]}"; do
+      git -C /repo apply "$HERE/refactors/$id.diff" || { echo "refactor $id: patch does not apply"; rc=1; continue; }
+      bad=""
+      for p in C01 C02 C03 C04 C05 C06 C07 C08 C09 C10 C11 C13 C14 C15 C16 C17 C18 C19 C20; do
+        out=$("$HERE/check" $p quick 2>&1); code=$?
+        [ $code -ne 0 ] && bad="$bad $p(exit $code: $(echo "$out" | grep -m1 '^  class' | cut -c3-90))"
+      done
+      git -C /repo checkout -- .
+      if [ -z "$bad" ]; then echo "refactor $id: all 19 checks quiet"; else echo "refactor $id: ALARM:$bad"; rc=1; fi
+    done
+    "$HERE/check" --build >/dev/null
+    exit $rc ;;
+  *) echo "usage: selftest.sh determinism|seeded|mutants|refactors [...]"; exit 2 ;;
 esac
